@@ -591,13 +591,16 @@ static string cb_json()
 	return r + "]";
 }
 
+static int g_last_errno = 0;
 static void apply_errno()
 {
+	// errno is carried from one library call to the next, as in a real program (the executor's own activity in between
+	// must not disturb it); the `errno N` command overrides it once
 	if (g_pending_errno >= 0) {
 		errno = g_pending_errno;
 		g_pending_errno = -1;
 	} else {
-		errno = 0;
+		errno = g_last_errno;
 	}
 }
 
@@ -772,6 +775,7 @@ static void run_script(const string &script)
 			cfg_yylex_destroy();
 			cfg_include_stack_ptr = 0;
 			g_cbseq = g_cbfail = 0;
+			g_last_errno = 0;
 			vt_fail_at = 0;
 			api = false;
 		} else if (c == "init") {
@@ -1176,8 +1180,10 @@ static void run_script(const string &script)
 			o += ",\"unknown\":1";
 			api = false;
 		}
-		if (api)
+		if (api) {
 			o += ",\"errno\":" + jnum(saved_errno);
+			g_last_errno = saved_errno;
+		}
 		if (!g_diag.empty())
 			o += ",\"diag\":" + diag_json();
 		if (!g_cblog.empty())
